@@ -192,6 +192,8 @@ def norm_step(evs, kind='plugin'):
             out.append({'ev': 'SCloseRet'})
         elif k == 'SExit':
             out.append({'ev': 'SExit'})
+        elif k == 'XExecStart':
+            out.append({'ev': 'XExecStart'})
         elif k == 'XExecAbort':
             aborted.add(e['conn'])
             out.append({'ev': 'XExecAbort'})
@@ -222,7 +224,7 @@ def strict_one(args):
     evs, handler, work = args
     import tempfile
     d = tempfile.mkdtemp(prefix='ptrace-', dir=work)
-    strict_events = [e for e in evs if e['ev'] in ('SSet', 'Notif', 'SProv', 'SClose', 'SCloseRet', 'SExit', 'XExecEnd', 'XExecAbort')]
+    strict_events = [e for e in evs if e['ev'] in ('SSet', 'Notif', 'SProv', 'SClose', 'SCloseRet', 'SExit', 'XExecStart', 'XExecEnd', 'XExecAbort')]
     path = os.path.join(d, 'trace.json')
     json.dump(strict_events, open(path, 'w'))
     ncl = max(1, sum(1 for e in strict_events if e['ev'] == 'SClose'))
